@@ -185,11 +185,95 @@ def h03b_live(c, n=1):
         c.cover("handled")
 
 
+def h03b_betdaq(c):
+    """Betdaq: one request through Transaction -> real BetdaqExecution against a double of the Betdaq API (report ok / error code /
+    missing / API error), with polling updates (process_betdaq_current_orders) before and after the answer"""
+    from betdaq import BetdaqError
+    from flumine.baseflumine import BaseFlumine
+    from flumine.clients.betdaqclient import BetdaqClient
+    from flumine.clients.clients import ExchangeType
+    from flumine.events import events
+    with cm.config_set(simulated=False):
+        api = cm.NS()
+        client = BetdaqClient(betting_client=cm.NS(username="bdq", betting=api), order_stream=False)
+        fl = BaseFlumine(client)
+        fl.betdaq_execution._thread_pool = cm.InlinePool()
+        fl.betdaq_execution._get_http_session = lambda: cm.NS(time_created=0, time_returned=0)
+        strategy = cm.add_live_strategy(fl, "s")
+        market = fl._add_market(cm.MID, cm.book([cm.runner(1)], version=7))
+        kind = c.choose("kind", ["place", "cancel", "update"])
+        outcome = c.choose("api_outcome", ["ok", "error-code", "report-missing", "BetdaqError", "Exception"])
+        poll_before = c.choose("poll_before_answer", ["none", "Unmatched", "Matched", "Cancelled"]) if kind != "place" else "none"
+        poll_after = c.choose("poll_after_answer", ["none", "Unmatched", "Unmatched-new-sequence", "Matched", "Cancelled", "Settled"])
+        c.tag("kind", kind); c.tag("outcome", outcome); c.tag("poll_before", poll_before); c.tag("poll_after", poll_after)
+        tr = Trade(cm.MID, 1, 0, strategy)
+        o = tr.create_betdaq_order("BACK", BetdaqLimitOrder(2.0, 10.0, 1, 0, 0), BetdaqOrder)
+        seq = [1]
+
+        def poll(status, new_seq=False):
+            if new_seq:
+                seq[0] += 1
+            co = {"order_id": o.bet_id or 777, "customer_reference": int(o.id), "status": status, "sequence_number": seq[0], "price": 2.0,
+                  "matched_size": 10.0 if status in ("Matched", "Settled") else 0.0, "remaining_size": 0.0 if status != "Unmatched" else 10.0, "matched_price": 2.0}
+            fl._process_current_orders(events.CurrentOrdersEvent([co], exchange=ExchangeType.BETDAQ))
+
+        def answer(name):
+            def f(**kw):
+                if poll_before != "none":
+                    poll(poll_before)
+                if outcome == "BetdaqError":
+                    raise BetdaqError("scripted")
+                if outcome == "Exception":
+                    raise RuntimeError("scripted")
+                if outcome == "report-missing":
+                    return []
+                rc = 0 if outcome == "ok" else 137
+                if name == "place":
+                    return [{"customer_reference": int(o.id), "order_id": 777 if rc == 0 else None, "return_code": rc, "status": "Unmatched"}]
+                return [{"order_id": o.bet_id, "return_code": rc, "customer_reference": int(o.id)}]
+            return f
+
+        api.place_orders, api.cancel_orders, api.update_orders = answer("place"), answer("cancel"), answer("update")
+        with lc.Recorder() as rec:
+            if kind != "place":
+                o.update_client(client)
+                o.bet_id = 777
+                market.blotter[o.id] = o
+                o.responses.placed({"order_id": 777, "status": "Unmatched", "sequence_number": 1, "remaining_size": 10.0, "matched_size": 0.0})
+                o.status = S.EXECUTABLE
+                o.status_log.append(S.EXECUTABLE)
+                strategy.get_runner_context(*o.lookup).place(tr.id)
+            with c.guard("request+answer"):
+                if kind == "place":
+                    market.place_order(o, force=True)
+                elif kind == "cancel":
+                    market.cancel_order(o, force=True)
+                else:
+                    market.update_order(o, size_delta=-2.0, new_price=2.5, force=True)
+            if poll_after != "none":
+                with c.guard("poll"):
+                    poll(poll_after.split("-")[0], new_seq=poll_after.endswith("new-sequence"))
+        lc.transition_obligations(c, rec, [o])
+        seen = False
+        for (old, new, who) in rec.of(o):
+            if seen:
+                c.ob("complete-is-final", new not in lc.LIVE_STATUS, transition="%s->%s" % (getattr(old, "name", old), new.name), writer=who)
+            if new == S.EXECUTION_COMPLETE:
+                seen = True
+        # Betdaq: a successful update legitimately stays 'updating' until a poll with a new sequence number
+        if not (kind == "update" and outcome == "ok" and not poll_after.endswith("new-sequence") and poll_after not in ("Matched", "Cancelled", "Settled")):
+            if kind != "place" or outcome in ("ok", "error-code", "BetdaqError", "Exception"):
+                c.ob("ends-progressable", o.status in (S.EXECUTABLE, S.EXECUTION_COMPLETE) or (o.status == S.UPDATING and kind == "update" and outcome == "ok") or
+                     (kind == "place" and outcome == "report-missing" and o.status == S.PENDING), status=o.status.name)
+        c.cover("handled")
+
+
 OUT = ["K > 3 interleavings as concrete histories (covered only through the arbitrary in-flight pre-state of H03b)",
        "OrderStatus.EXPIRED is never assigned anywhere in flumine and is excluded from pre-state domains"]
 HARNESSES = [
     Harness("H03a", h03a, pattern="P2 inductive step", requires=["accepted", "rejected"], outside=OUT),
     Harness("H03b-live", h03b_live, pattern="P5 fault schedule as a variable", requires=["handled", "stream-first", "retries-exhausted", "replacement"], outside=OUT),
+    Harness("H03b-betdaq", h03b_betdaq, pattern="P5 fault schedule as a variable", requires=["handled"], outside=OUT, selfcheck=False),
     Harness("H03b-sim", h03b_sim, pattern="P5 + P2 (response vs arbitrary in-flight pre-state)", requires=["handled", "completed-meanwhile", "replacement"], outside=OUT),
 ]
 META = {"assumptions": ["handler granularity: each execute_* body is atomic"]}
